@@ -1,7 +1,1200 @@
 package putsvc
 
-import "verif/simkit"
+// C24: nodes store only self-consistent, authenticated objects.
+//
+// A simulated client streams objects through the real PUT pipeline (Service.Put ->
+// Init/SendChunk/Close; sealed objects and blank objects the node slices / EC-encodes and
+// signs itself) and through the replication entry of this package
+// (Service.ValidateAndStoreObjectLocally).  Objects are valid or broken in exactly one
+// respect; streams are chunked, cut, closed early, corrupted, padded.  The node's own storage
+// and the transports to the other container nodes are recording fakes; a few deliveries fail.
+//
+// Oracle: c24Valid (an independent validity predicate written from the statement; trusted
+// base: SDK Object.VerifyID, Object.VerifySignature, session.Object.VerifySignature /
+// AssertAuthKey, crypto/sha256) must hold for every object that reaches any storage; broken
+// input must end in an error with nothing stored; what the node assembled itself must
+// reassemble to exactly the streamed bytes (a prefix of them if the stream failed).
+
+import (
+	"bytes"
+	"context"
+	"crypto/ecdsa"
+	"crypto/sha256"
+	"encoding/hex"
+	"fmt"
+	"sort"
+	"strconv"
+	"strings"
+	"time"
+
+	"github.com/google/uuid"
+	iec "github.com/nspcc-dev/neofs-node/internal/ec"
+	"github.com/nspcc-dev/neofs-node/pkg/services/object/common"
+	objutil "github.com/nspcc-dev/neofs-node/pkg/services/object/util"
+	"github.com/nspcc-dev/neofs-sdk-go/checksum"
+	neofsecdsa "github.com/nspcc-dev/neofs-sdk-go/crypto/ecdsa"
+	"github.com/nspcc-dev/neofs-sdk-go/object"
+	oid "github.com/nspcc-dev/neofs-sdk-go/object/id"
+	"github.com/nspcc-dev/neofs-sdk-go/session"
+	"github.com/nspcc-dev/neofs-sdk-go/user"
+	"verif/simkit"
+)
 
 func propC24() *simkit.Property {
-	return &simkit.Property{ID: "C24", Level: "exploration", Bubble: true, Rule: "stub", Run: func(r *simkit.R) {}}
+	return &simkit.Property{
+		ID: "C24", Level: "exploration", Bubble: true, TapeLimit: 1500,
+		Rule: "each run = one container (REP 1-2 rules or EC 1-2 rules over 2-5 nodes, local node inside or outside, max object size 1-4 KiB) and 1-3 uploads: a client-sealed object (plain, with a client session, v2 split child with parent header, EC part, LOCK) through the PUT stream or the replication entry, or a blank object the node slices / EC-encodes and signs (session token or node-owned), payload 0-16 KiB; each upload is valid or broken in exactly one respect (26 kinds: id, checksum, size, header/attribute byte after signing, signer, signature, session issuer / signer / key / verb / expiry, attribute zero byte / duplicate / empty, EC indexes / hashes / length / parent, parent header id / signature / attributes, node session missing / expired, foreign owner) and its stream is chunked 1 byte..whole and optionally cut, closed early, corrupted, duplicated or padded; 0-25% of the deliveries to nodes fail. Every object reaching any storage is judged by the independent validity predicate; broken input must give an error and no store; node-made pieces must reassemble to the streamed bytes. distinct = trace digest; non-trivial = >=1 object stored and >=1 broken upload or failed delivery",
+		Run:  runC24,
+		Assumptions: []string{
+			"trusted base of the predicate: SDK Object.VerifyID / VerifySignature, session token VerifySignature / AssertAuthKey, crypto/sha256; none of the put / core-object / internal-crypto code",
+			"request-level checks of the session token (signature, verb, lifetime, container) belong to the object server / ACL layer (C29/C30) and are not repeated here: tokens handed to the node-side slicer are authentic",
+			"a session token's verb / lifetime / container inside a sealed object's header, the homomorphic hash, the max-size limit and EC attributes on a non-EC object are not named by the statement: acceptance or refusal are both fine (probes)",
+			"V2 session tokens, N3 (contract) signatures, tombstones' target checks and v1 split are not generated",
+			"the client stops at the first error its stream reports",
+		},
+		Components: map[string]string{
+			"Streamer Init/SendChunk/Close, validatingTarget, slicingTarget (SDK slicer), distributedTarget, ValidateAndStoreObjectLocally": "real",
+			"FormatValidator.Validate/ValidateContent, checkEC/checkECPart/checkECParent, AuthenticateObject, AuthenticateToken":               "real",
+			"local object storage": "simulated: recording fake (judges the binary it is given)",
+			"other container nodes": "simulated: recording Transport / ClientConstructor fakes behind gates, 0-25% failures",
+			"client":               "simulated: object builder + mutators + stream fault injector",
+		},
+		DeadlockClass: "hang",
+	}
+}
+
+// ---------------------------------------------------------------------------------------
+// independent validity predicate
+
+type c24Ctx struct {
+	ec    [][2]int // container's EC rules
+	epoch uint64
+}
+
+func ecdsaPub(p neofsecdsa.PublicKey) ecdsa.PublicKey { return ecdsa.PublicKey(p) }
+
+func c24AttrsBad(o *object.Object) string {
+	seen := map[string]bool{}
+	for _, a := range o.Attributes() {
+		if seen[a.Key()] {
+			return "duplicated attribute key"
+		}
+		seen[a.Key()] = true
+		if a.Value() == "" {
+			return "empty attribute value"
+		}
+		if strings.IndexByte(a.Key(), 0) >= 0 || strings.IndexByte(a.Value(), 0) >= 0 {
+			return "zero byte in an attribute"
+		}
+	}
+	return ""
+}
+
+// c24Auth: the signature authenticates the owner or the session issued by the owner.
+func c24Auth(o *object.Object) string {
+	sig := o.Signature()
+	if sig == nil {
+		return "no signature"
+	}
+	if !o.VerifySignature() {
+		return "signature does not verify over the identifier"
+	}
+	var pub neofsecdsa.PublicKey
+	if err := pub.Decode(sig.PublicKeyBytes()); err != nil {
+		return "signature key is not an ECDSA key"
+	}
+	signer := user.NewFromECDSAPublicKey(ecdsaPub(pub))
+	if o.SessionTokenV2() != nil {
+		return "unexpected V2 session token"
+	}
+	tok := o.SessionToken()
+	if tok == nil {
+		if signer != o.Owner() {
+			return "signer is not the owner"
+		}
+		return ""
+	}
+	if !tok.VerifySignature() {
+		return "session token signature does not verify"
+	}
+	tsig, ok := tok.Signature()
+	if !ok {
+		return "session token without signature"
+	}
+	var tpub neofsecdsa.PublicKey
+	if err := tpub.Decode(tsig.PublicKeyBytes()); err != nil {
+		return "session token key is not an ECDSA key"
+	}
+	if user.NewFromECDSAPublicKey(ecdsaPub(tpub)) != tok.Issuer() {
+		return "session token is not signed by its issuer"
+	}
+	if tok.Issuer() != o.Owner() {
+		return "session issuer is not the object owner"
+	}
+	if !tok.AssertAuthKey(&pub) {
+		return "object signer is not the session key"
+	}
+	return ""
+}
+
+// c24HeaderBad judges a header carried inside another object (parent header).
+func c24HeaderBad(h *object.Object) string {
+	if s := c24AttrsBad(h); s != "" {
+		return "parent header: " + s
+	}
+	if !h.GetID().IsZero() {
+		if err := h.VerifyID(); err != nil {
+			return "parent header: identifier does not match"
+		}
+	}
+	if h.Signature() != nil {
+		if h.GetID().IsZero() {
+			return "parent header: signature without identifier"
+		}
+		if s := c24Auth(h); s != "" {
+			return "parent header: " + s
+		}
+	}
+	return ""
+}
+
+func c24Valid(o *object.Object, cx *c24Ctx) string {
+	if err := o.VerifyID(); err != nil {
+		return "identifier does not match the header"
+	}
+	if uint64(len(o.Payload())) != o.PayloadSize() {
+		return "payload length differs from the declared size"
+	}
+	cs, ok := o.PayloadChecksum()
+	if !ok {
+		return "no payload checksum"
+	}
+	if cs.Type() != checksum.SHA256 {
+		return "payload checksum is not SHA-256"
+	}
+	if h := sha256.Sum256(o.Payload()); !bytes.Equal(h[:], cs.Value()) {
+		return "payload checksum mismatch"
+	}
+	if s := c24AttrsBad(o); s != "" {
+		return s
+	}
+	rs, ps, isEC := pvECInfo(o)
+	if !isEC {
+		if s := c24Auth(o); s != "" {
+			return s
+		}
+		if par := o.Parent(); par != nil {
+			if s := c24HeaderBad(par); s != "" {
+				return s
+			}
+		}
+		return ""
+	}
+	// EC part
+	ri, e1 := strconv.Atoi(rs)
+	pi, e2 := strconv.Atoi(ps)
+	if rs == "" || ps == "" || e1 != nil || e2 != nil || ri < 0 || pi < 0 {
+		return "EC part: broken index attributes"
+	}
+	if ri >= len(cx.ec) {
+		return "EC part: rule index beyond the policy"
+	}
+	d, p := cx.ec[ri][0], cx.ec[ri][1]
+	if pi >= d+p {
+		return "EC part: part index beyond the rule"
+	}
+	for _, a := range o.Attributes() {
+		if !strings.HasPrefix(a.Key(), "__NEOFS__EC_") {
+			return "EC part: mixed with other attributes"
+		}
+	}
+	par := o.Parent()
+	if par == nil {
+		return "EC part: no parent header"
+	}
+	if par.GetID().IsZero() || par.Signature() == nil {
+		return "EC part: parent header not sealed"
+	}
+	if s := c24HeaderBad(par); s != "" {
+		return "EC part: " + s
+	}
+	if par.Owner() != o.Owner() || par.GetContainerID() != o.GetContainerID() {
+		return "EC part: owner/container differ from the parent"
+	}
+	if want := (par.PayloadSize() + uint64(d) - 1) / uint64(d); o.PayloadSize() != want {
+		return "EC part: length is not the parent's length divided over the data parts"
+	}
+	hashes := ""
+	for _, a := range par.Attributes() {
+		if a.Key() == "__NEOFS__EC_PART_HASHES" {
+			hashes = a.Value()
+		}
+	}
+	pos := pi
+	for j := 0; j < ri; j++ {
+		pos += cx.ec[j][0] + cx.ec[j][1]
+	}
+	list := strings.Split(hashes, ",")
+	if pos >= len(list) || list[pos] != hex.EncodeToString(cs.Value()) {
+		return "EC part: checksum is not the one the parent lists for this part"
+	}
+	return ""
+}
+
+// ---------------------------------------------------------------------------------------
+// client side: objects, mutations, stream faults
+
+const (
+	c24Plain   = iota // sealed regular object signed by the owner
+	c24Session        // sealed regular object signed by a session key, token inside
+	c24Child          // sealed v2 split child carrying a signed parent header
+	c24ECPart         // client-made EC part
+	c24LockObj        // sealed LOCK
+	c24Blank          // blank object, node slices and signs (session token)
+	c24BlankOwn       // blank object owned by the node's own key, no token
+)
+
+func c24ShapeName(s int) string {
+	return [...]string{"sealed plain", "sealed with session", "sealed split child", "sealed EC part", "sealed LOCK", "blank with session", "blank node-owned"}[s]
+}
+
+type c24Upload struct {
+	shape   int
+	via     string // stream | replicate
+	hdr     *object.Object
+	payload []byte // what the object is sealed over / what the client means to stream
+	tokens  common.RequestTokens
+	mut     string
+	broken  bool // the statement demands refusal
+	open    bool // the statement does not say
+	// world tweaks
+	noNodeSession, nodeSessionExpired bool
+}
+
+func c24Token(r *simkit.R, w *pvWorld, issuerKey, signKey, authKey int, verb session.ObjectVerb, exp uint64, foreignCnr bool) *session.Object {
+	var tok session.Object
+	var id uuid.UUID
+	copy(id[:], r.Bytes(16))
+	id[6] = (id[6] & 0x0f) | 0x40
+	id[8] = (id[8] & 0x3f) | 0x80
+	tok.SetID(id)
+	tok.SetIat(w.epoch - 1)
+	tok.SetNbf(w.epoch - 1)
+	tok.SetExp(exp)
+	c := w.cnrID
+	if foreignCnr {
+		c[3] ^= 0x55
+	}
+	tok.BindContainer(c)
+	tok.ForVerb(verb)
+	tok.SetAuthKey((*neofsecdsa.PublicKey)(&pvKey(authKey).PublicKey))
+	tok.SetIssuer(pvUser(issuerKey))
+	if err := tok.SetSignature(neofsecdsa.SignerRFC6979(*pvKey(signKey))); err != nil {
+		r.Failf("infra", "token-sign", "%v", err)
+	}
+	return &tok
+}
+
+func c24Seal(r *simkit.R, o *object.Object, signKey int) {
+	if err := o.CalculateAndSetID(); err != nil {
+		r.Failf("infra", "id", "%v", err)
+	}
+	if err := o.Sign(pvSigner(signKey)); err != nil {
+		r.Failf("infra", "sign", "%v", err)
+	}
+}
+
+func c24RandID(r *simkit.R) oid.ID {
+	var id oid.ID
+	copy(id[:], r.Bytes(32))
+	id[0] |= 1
+	return id
+}
+
+// c24Build creates one upload.  mutation 0 = valid.
+func c24Build(r *simkit.R, w *pvWorld, cx *c24Ctx, shape int, size int, mutate bool) *c24Upload {
+	u := &c24Upload{shape: shape, via: "stream", mut: "none"}
+	payload := r.Bytes(size)
+	attrs := []object.Attribute{object.NewAttribute("FileName", "a.bin"), object.NewAttribute("Tag", "t1")}
+	badAttrs := func(which int) []object.Attribute {
+		switch which {
+		case 0:
+			u.mut = "attribute key with zero byte"
+			return append(attrs, object.NewAttribute("k\x00ey", "v"))
+		case 1:
+			u.mut = "attribute value with zero byte"
+			return append(attrs, object.NewAttribute("key", "v\x00"))
+		case 2:
+			u.mut = "duplicated attribute key"
+			return append(attrs, object.NewAttribute("Tag", "t2"))
+		default:
+			u.mut = "empty attribute value"
+			return append(attrs, object.NewAttribute("key", ""))
+		}
+	}
+	owner := pvKeyOwner
+	switch shape {
+	case c24Blank, c24BlankOwn:
+		m := 0
+		if mutate {
+			m = 1 + r.Intn(9)
+		}
+		if shape == c24BlankOwn {
+			owner = pvKeyNode
+		}
+		o := object.New(w.cnrID, pvUser(owner))
+		o.SetAttributes(attrs...)
+		declared := r.Bool(50)
+		if declared {
+			o.SetPayloadSize(uint64(size))
+		}
+		issuer, signK := pvKeyOwner, pvKeyOwner
+		switch m {
+		case 1, 2, 3, 4:
+			o.SetAttributes(badAttrs(m - 1)...)
+			u.broken = true
+		case 5:
+			if shape == c24Blank {
+				u.mut, u.noNodeSession, u.broken = "node does not hold the session key", true, true
+			}
+		case 6:
+			if shape == c24Blank {
+				u.mut, u.nodeSessionExpired, u.broken = "node's session key expired", true, true
+			}
+		case 7:
+			if shape == c24BlankOwn {
+				o.SetOwner(pvUser(pvKeyOwner))
+				u.mut, u.broken = "no session and the owner is not the node", true
+			}
+		case 8:
+			o.SetAttributes(append(attrs, object.NewAttribute("__NEOFS__EC_RULE_IDX", "0"), object.NewAttribute("__NEOFS__EC_PART_IDX", "0"))...)
+			u.mut, u.open = "EC attributes in a blank object", true
+		case 9:
+			if shape == c24Blank {
+				o.SetOwner(pvUser(pvKeyOwner2))
+				u.mut, u.open = "header owner differs from the session issuer", true
+			}
+		}
+		if shape == c24Blank {
+			u.tokens.SessionV1 = c24Token(r, w, issuer, signK, pvKeySession, session.VerbObjectPut, w.epoch+20, false)
+		}
+		u.hdr, u.payload = o, payload
+		return u
+	case c24ECPart:
+		return c24BuildPart(r, w, cx, u, payload, attrs, mutate)
+	}
+
+	// sealed objects -------------------------------------------------------------------
+	m := 0
+	if mutate {
+		m = 1 + r.Intn(22)
+	}
+	o := object.New(w.cnrID, pvUser(owner))
+	o.SetCreationEpoch(w.epoch)
+	o.SetAttributes(attrs...)
+	signK := pvKeyOwner
+	switch shape {
+	case c24Session:
+		issuer, tokSign, auth, verb, exp, foreign := pvKeyOwner, pvKeyOwner, pvKeyClientSK, session.VerbObjectPut, w.epoch+20, false
+		switch m {
+		case 15:
+			issuer, tokSign = pvKeyOwner2, pvKeyOwner2
+			u.mut, u.broken = "session issued by another user", true
+		case 16:
+			tokSign = pvKeyStranger
+			u.mut, u.broken = "session token signed by a key that is not its issuer's", true
+		case 17:
+			auth = pvKeyStranger
+			u.mut, u.broken = "session issued to another key than the object signer's", true
+		case 18:
+			verb = session.VerbObjectDelete
+			u.mut, u.open = "session for another verb", true
+		case 19:
+			exp = w.epoch - 5
+			u.mut, u.open = "session expired", true
+		case 20:
+			foreign = true
+			u.mut, u.open = "session bound to another container", true
+		}
+		o.SetSessionToken(c24Token(r, w, issuer, tokSign, auth, verb, exp, foreign))
+		signK = pvKeyClientSK
+	case c24Child:
+		par := object.New(w.cnrID, pvUser(owner))
+		par.SetCreationEpoch(w.epoch)
+		par.SetAttributes(attrs...)
+		par.SetPayloadSize(uint64(size) + 4096)
+		par.SetPayloadChecksum(checksum.NewSHA256(sha256.Sum256(r.Bytes(8))))
+		pk := pvKeyOwner
+		switch m {
+		case 15:
+			par.SetAttributes(append(attrs, object.NewAttribute("k\x00", "v"))...)
+			u.mut, u.broken = "parent header: attribute with zero byte", true
+		case 16:
+			par.SetAttributes(append(attrs, object.NewAttribute("Tag", "x"))...)
+			u.mut, u.broken = "parent header: duplicated attribute", true
+		case 17:
+			pk = pvKeyStranger
+			u.mut, u.broken = "parent header: signed by another key", true
+		}
+		c24Seal(r, par, pk)
+		switch m {
+		case 18:
+			id := par.GetID()
+			id[5] ^= 1
+			par.SetID(id)
+			u.mut, u.broken = "parent header: identifier does not match", true
+		case 19:
+			par.SetPayloadSize(par.PayloadSize() + 1)
+			u.mut, u.broken = "parent header: field changed after signing", true
+		}
+		o.SetAttributes()
+		o.SetParent(par)
+		o.SetParentID(par.GetID())
+		o.SetFirstID(c24RandID(r))
+		o.SetPreviousID(c24RandID(r))
+	case c24LockObj:
+		o.SetAttributes(object.NewAttribute(object.AttributeExpirationEpoch, strconv.FormatUint(w.epoch+30, 10)))
+		o.AssociateLocked(c24RandID(r))
+		payload = nil
+	}
+	if shape != c24LockObj {
+		o.SetPayload(payload)
+	}
+	o.SetPayloadSize(uint64(len(payload)))
+	o.CalculateAndSetPayloadChecksum()
+	// one-respect mutations applied before sealing
+	switch m {
+	case 1:
+		cs := sha256.Sum256(payload)
+		cs[7] ^= 0x10
+		o.SetPayloadChecksum(checksum.NewSHA256(cs))
+		u.mut, u.broken = "payload checksum of other bytes", true
+	case 2:
+		o.SetPayloadSize(uint64(len(payload)) + 1 + uint64(r.Intn(40)))
+		u.mut, u.broken = "declared size larger than the payload", true
+	case 3:
+		if len(payload) > 0 {
+			o.SetPayloadSize(uint64(r.Intn(len(payload))))
+			u.mut, u.broken = "declared size smaller than the payload", true
+		}
+	case 4, 5, 6, 7:
+		if shape != c24LockObj && shape != c24Child {
+			o.SetAttributes(badAttrs(m - 4)...)
+			u.broken = true
+		}
+	case 8:
+		signK = pvKeyStranger
+		u.mut, u.broken = "signed by a key that is neither the owner's nor the session's", true
+	case 9:
+		o.SetPayloadHomomorphicHash(checksum.New(checksum.TillichZemor, r.Bytes(64))) //nolint:staticcheck // legacy field on purpose
+		u.mut, u.open = "garbage homomorphic hash", true
+	case 10:
+		if len(cx.ec) == 0 && shape == c24Plain {
+			o.SetAttributes(append(attrs, object.NewAttribute("__NEOFS__EC_PARTS", "1"))...)
+			u.mut, u.open = "EC-prefixed attribute on a plain object", true
+		}
+	}
+	c24Seal(r, o, signK)
+	// one-respect mutations applied after sealing
+	switch m {
+	case 11:
+		id := o.GetID()
+		id[9] ^= 4
+		o.SetID(id)
+		u.mut, u.broken = "identifier does not match the header", true
+	case 12:
+		o.SetCreationEpoch(w.epoch - 1)
+		u.mut, u.broken = "header field changed after signing", true
+	case 13:
+		if shape != c24LockObj && shape != c24Child {
+			o.SetAttributes(append(attrs[:1:1], object.NewAttribute("Tag", "t9"))...)
+			u.mut, u.broken = "attribute changed after signing", true
+		}
+	case 14:
+		sig := *o.Signature()
+		v := append([]byte(nil), sig.Value()...)
+		v[len(v)/2] ^= 1
+		sig.SetValue(v)
+		o.SetSignature(&sig)
+		u.mut, u.broken = "signature bytes corrupted", true
+	case 21:
+		o.SetSignature(nil)
+		u.mut, u.open = "signature removed (becomes a blank object)", true
+	case 22:
+		// valid object, unknown container
+		u.mut = "none"
+	}
+	if uint64(len(payload)) > w.maxSize && !u.broken {
+		u.open = true
+		if u.mut == "none" {
+			u.mut = "sealed object larger than the maximum object size"
+		}
+	}
+	u.hdr, u.payload = o, payload
+	return u
+}
+
+func c24BuildPart(r *simkit.R, w *pvWorld, cx *c24Ctx, u *c24Upload, payload []byte, attrs []object.Attribute, mutate bool) *c24Upload {
+	m := 0
+	if mutate {
+		m = 1 + r.Intn(14)
+	}
+	par := object.New(w.cnrID, pvUser(pvKeyOwner))
+	par.SetCreationEpoch(w.epoch)
+	par.SetPayloadSize(uint64(len(payload)))
+	par.SetPayloadChecksum(checksum.NewSHA256(sha256.Sum256(payload)))
+	var hashes []string
+	var partsByRule [][][]byte
+	for _, e := range cx.ec {
+		pl := append([]byte(nil), payload...)
+		parts, sums, err := iec.Encode(iec.Rule{DataPartNum: uint8(e[0]), ParityPartNum: uint8(e[1])}, pl[:len(pl):len(pl)])
+		if err != nil {
+			r.Failf("infra", "ec-encode", "%v", err)
+		}
+		hashes = append(hashes, sums...)
+		partsByRule = append(partsByRule, parts)
+	}
+	pattrs := append(append([]object.Attribute(nil), attrs...), object.NewAttribute(iec.AttributePartsHashes, strings.Join(hashes, ",")))
+	parKey := pvKeyOwner
+	switch m {
+	case 1:
+		pattrs = attrs
+		u.mut, u.broken = "EC part: parent without part hashes", true
+	case 2:
+		parKey = pvKeyStranger
+		u.mut, u.broken = "EC part: parent signed by another key", true
+	case 3:
+		pattrs = append(pattrs, object.NewAttribute("z\x00", "v"))
+		u.mut, u.broken = "EC part: parent attribute with zero byte", true
+	}
+	par.SetAttributes(pattrs...)
+	c24Seal(r, par, parKey)
+	if m == 4 {
+		id := par.GetID()
+		id[1] ^= 2
+		par.SetID(id)
+		u.mut, u.broken = "EC part: parent identifier does not match", true
+	}
+	rule := r.Intn(len(cx.ec))
+	total := cx.ec[rule][0] + cx.ec[rule][1]
+	idx := r.Intn(total)
+	pp := partsByRule[rule][idx]
+	ruleAttr, idxAttr := rule, idx
+	switch m {
+	case 5:
+		idxAttr = total + r.Intn(3)
+		u.mut, u.broken = "EC part: part index beyond the rule", true
+	case 6:
+		ruleAttr = len(cx.ec) + r.Intn(2)
+		u.mut, u.broken = "EC part: rule index beyond the policy", true
+	case 7:
+		if len(pp) > 0 {
+			pp = append([]byte(nil), pp...)
+			pp[0] ^= 0x80
+			u.mut, u.broken = "EC part: payload is not the part the parent lists", true
+		}
+	case 8:
+		if len(pp) > 1 {
+			pp = pp[:len(pp)-1]
+			u.mut, u.broken = "EC part: shorter than the parent's length allows", true
+		}
+	}
+	part, err := iec.FormObjectForECPart(nil, *par, pp, iec.PartInfo{RuleIndex: ruleAttr, Index: idxAttr})
+	if err != nil {
+		r.Failf("infra", "ec-part", "%v", err)
+	}
+	reseal := func() {
+		part.SetSignature(nil)
+		if err := part.CalculateAndSetID(); err != nil {
+			r.Failf("infra", "id", "%v", err)
+		}
+	}
+	switch m {
+	case 9:
+		var keep []object.Attribute
+		for _, a := range part.Attributes() {
+			if a.Key() != "__NEOFS__EC_PART_IDX" {
+				keep = append(keep, a)
+			}
+		}
+		part.SetAttributes(keep...)
+		reseal()
+		u.mut, u.broken = "EC part: part index attribute missing", true
+	case 10:
+		part.SetAttributes(append(part.Attributes(), object.NewAttribute("FileName", "x"))...)
+		reseal()
+		u.mut, u.broken = "EC part: mixed with a non-EC attribute", true
+	case 11:
+		id := part.GetID()
+		id[2] ^= 8
+		part.SetID(id)
+		u.mut, u.broken = "identifier does not match the header", true
+	case 12:
+		cs := sha256.Sum256(pp)
+		cs[0] ^= 1
+		part.SetPayloadChecksum(checksum.NewSHA256(cs))
+		reseal()
+		u.mut, u.broken = "payload checksum of other bytes", true
+	case 13:
+		part.SetPayloadSize(part.PayloadSize() + 3)
+		reseal()
+		u.mut, u.broken = "declared size larger than the payload", true
+	case 14:
+		part.SetParent(nil)
+		reseal()
+		u.mut, u.broken = "EC part: no parent header", true
+	}
+	u.hdr, u.payload = &part, part.Payload()
+	return u
+}
+
+const (
+	c24FNone = iota
+	c24FCut
+	c24FEarly
+	c24FCorrupt
+	c24FDup
+	c24FExtra
+)
+
+func c24FaultName(f int) string {
+	return [...]string{"none", "stream cut before Close", "Close before the last chunks", "one chunk corrupted", "one chunk sent twice", "extra bytes appended"}[f]
+}
+
+// c24Chunks splits the payload and applies the stream fault.  It returns the chunks to send,
+// whether Close is called, and the bytes actually streamed.
+func c24Chunks(r *simkit.R, payload []byte, fault int) ([][]byte, bool, []byte, int) {
+	var chunks [][]byte
+	mode := r.Intn(4)
+	rest := payload
+	for len(rest) > 0 {
+		n := len(rest)
+		switch mode {
+		case 1:
+			n = 1 + r.Intn(2000)
+		case 2:
+			if len(payload) <= 300 {
+				n = 1
+			} else {
+				n = 1 + r.Intn(64)
+				if len(chunks) > 300 {
+					n = len(rest)
+				}
+			}
+		case 3:
+			n = 100
+		}
+		n = min(n, len(rest))
+		chunks = append(chunks, rest[:n])
+		rest = rest[n:]
+	}
+	doClose := true
+	switch fault {
+	case c24FCut:
+		chunks = chunks[:r.Intn(len(chunks)+1)]
+		doClose = false
+	case c24FEarly:
+		if len(chunks) == 0 {
+			fault = c24FNone
+		} else {
+			chunks = chunks[:r.Intn(len(chunks))]
+		}
+	case c24FCorrupt:
+		if len(chunks) == 0 {
+			fault = c24FNone
+		} else {
+			i := r.Intn(len(chunks))
+			c := append([]byte(nil), chunks[i]...)
+			c[r.Intn(len(c))] ^= 0x20
+			chunks[i] = c
+		}
+	case c24FDup:
+		if len(chunks) == 0 {
+			fault = c24FNone
+		} else {
+			i := r.Intn(len(chunks))
+			chunks = append(chunks[:i+1:i+1], chunks[i:]...)
+		}
+	case c24FExtra:
+		chunks = append(chunks, r.Bytes(1+r.Intn(50)))
+	}
+	var streamed []byte
+	for _, c := range chunks {
+		streamed = append(streamed, c...)
+	}
+	return chunks, doClose, streamed, fault
+}
+
+// ---------------------------------------------------------------------------------------
+
+func runC24(r *simkit.R) {
+	k := simkit.NewKernel(r)
+	pool := 2 + r.Intn(4)
+	localIdx := r.Intn(pool + 1)
+	if localIdx == pool {
+		localIdx = -1
+	}
+	w := newPvWorld(r, k, pool, localIdx)
+	w.maxSize = []uint64{1024, 2048, 4096}[r.Intn(3)]
+	cx := &c24Ctx{epoch: w.epoch}
+	var rep []int
+	var lists [][]int
+	pick := func(need int) []int {
+		size := need + r.Intn(pool-need+1)
+		return r.Perm(pool)[:size]
+	}
+	if r.Bool(40) {
+		ne := 1 + r.Intn(2)
+		for j := 0; j < ne; j++ {
+			e := [2]int{1 + r.Intn(2), 1}
+			if e[0]+e[1] > pool {
+				e[0] = 1
+			}
+			if j > 0 && cx.ec[0] == e { // repeated rules are C25's subject (F-PUT-2)
+				if e[0] == 1 && pool >= 3 {
+					e[0] = 2
+				} else if e[0] == 2 {
+					e[0] = 1
+				} else {
+					break
+				}
+			}
+			cx.ec = append(cx.ec, e)
+		}
+		for j := range cx.ec {
+			lists = append(lists, pick(cx.ec[j][0]+cx.ec[j][1]))
+		}
+	} else {
+		nr := 1 + r.Intn(2)
+		for i := 0; i < nr; i++ {
+			c := 1 + r.Intn(min(2, pool))
+			rep = append(rep, c)
+			lists = append(lists, pick(c))
+		}
+	}
+	w.setPolicy(rep, cx.ec, lists, nil)
+	w.build()
+	failPct := []int{0, 0, 10, 25}[r.Intn(4)]
+	r.Logf("container: REP%v EC%v lists%v | pool=%d local=%s | max object size %d | delivery failures %d%%", rep, cx.ec, lists, pool, w.nodeName(localIdx), w.maxSize, failPct)
+	r.OnCleanup(func() { k.Shutdown(); time.Sleep(50 * time.Millisecond) })
+	k.SetPass(false)
+
+	storedAny, brokenAny := false, false
+	nops := 1 + r.Intn(3)
+	for op := 0; op < nops; op++ {
+		w.mu.Lock()
+		w.curOp = op
+		w.mu.Unlock()
+		// shape
+		sw := []int{4, 3, 2, 0, 1, 4, 2}
+		if len(cx.ec) > 0 {
+			sw = []int{0, 0, 0, 5, 1, 4, 2}
+		}
+		shape := r.Weighted(sw...)
+		sizes := []int{300, 0, 1, 17, int(w.maxSize) - 1, int(w.maxSize), int(w.maxSize) + 1, 2 * int(w.maxSize), 2*int(w.maxSize) + 5, 3*int(w.maxSize) + 100, 16000}
+		size := sizes[r.Intn(len(sizes))]
+		if shape != c24Blank && shape != c24BlankOwn && r.Bool(85) {
+			size = sizes[r.Intn(6)]
+		}
+		u := c24Build(r, w, cx, shape, size, r.Bool(55))
+		if shape != c24Blank && shape != c24BlankOwn && r.Bool(25) {
+			u.via = "replicate"
+		}
+		fault := c24FNone
+		if u.via == "stream" && r.Bool(35) {
+			fault = 1 + r.Intn(5)
+		}
+		chunks, doClose, streamed, fault := c24Chunks(r, u.payload, fault)
+		if u.via == "replicate" {
+			streamed = u.payload
+		}
+		w.sessionKnown = !u.noNodeSession
+		w.sessionExp = w.epoch + 50
+		if u.nodeSessionExpired {
+			w.sessionExp = w.epoch
+		}
+
+		var resID oid.ID
+		var resErr error
+		stage := "done"
+		closed := false
+		var okSpans [][2]int // record ranges of SendChunk calls that returned nil
+		run := func() {
+			defer w.pvCatchPanic(c24ShapeName(shape) + "; " + u.via)
+			ctx := context.Background()
+			if u.via == "replicate" {
+				var full object.Object
+				u.hdr.CopyTo(&full)
+				full.SetPayload(u.payload)
+				resErr = w.svc.ValidateAndStoreObjectLocally(ctx, full)
+				resID = full.GetID()
+				closed = true
+				return
+			}
+			stream, err := w.svc.Put(ctx)
+			if err != nil {
+				resErr, stage = err, "put"
+				return
+			}
+			prm := new(PutInitPrm).WithObject(u.hdr.CutPayload()).WithCommonPrm(objutil.CommonPrmFromRequest(2, nil, u.tokens))
+			if err = stream.Init(prm); err != nil {
+				resErr, stage = err, "init"
+				return
+			}
+			for _, c := range chunks {
+				from := w.recCount()
+				err = stream.SendChunk(new(PutChunkPrm).WithChunk(c))
+				if to := w.recCount(); to > from && err == nil {
+					okSpans = append(okSpans, [2]int{from, to})
+				}
+				if err != nil {
+					resErr, stage = err, "chunk"
+					return
+				}
+			}
+			if !doClose {
+				stage = "cut"
+				return
+			}
+			closed = true
+			resID, resErr = stream.Close()
+			stage = "close"
+		}
+		finished := w.drive("upload", run, func(string) int {
+			if failPct > 0 && r.Bool(failPct) {
+				return []int{pvErrGeneric, pvErrLostAck, pvErrSpace}[r.Intn(3)]
+			}
+			return pvOK
+		})
+		if r.Violated() {
+			return
+		}
+		if !finished {
+			r.Failf("hang", "upload does not return", "the upload did not return")
+		}
+		res := pvErrClass(resErr)
+		if stage == "cut" {
+			res = "cut"
+		}
+		r.Op("upload %d: %s via %s, %d bytes, mutation=%s, stream=%s (%d chunks) -> %s at %s", op, c24ShapeName(shape), u.via, len(u.payload), u.mut, c24FaultName(fault), len(chunks), res, stage)
+
+		// ---- judge ----
+		var st []*pvRec
+		failedDeliveries := 0
+		for _, rec := range w.recs {
+			if rec.op != op {
+				continue
+			}
+			if !rec.acked {
+				failedDeliveries++
+			}
+			if rec.stored {
+				st = append(st, rec)
+			}
+		}
+		where := fmt.Sprintf("%s via %s; mutation=%s; stream=%s", c24ShapeName(shape), u.via, u.mut, c24FaultName(fault))
+		// a SendChunk that reported success must have placed the pieces it formed
+		for _, sp := range okSpans {
+			if why := c24SpanPlaced(rep, cx.ec, lists, w.recs[sp[0]:sp[1]]); why != "" {
+				r.Failf("put-chunk-error-swallowed", "SendChunk reports success although the piece formed during it was not placed as the policy demands ["+c24ShapeName(shape)+"]", "%s; the client goes on streaming into a slicer that has already failed.\nupload: %s; result %s at %s", why, where, res, stage)
+			}
+		}
+		w.reportPanic()
+		for _, rec := range st {
+			if rec.binErr != "" {
+				r.Failf("put-stores-invalid", "local storage is handed a broken binary: "+c24Generic(rec.binErr)+" ["+where+"]", "node %s (%s): %s", w.nodeName(rec.node), rec.via, rec.binErr)
+			}
+			if why := c24Valid(&rec.obj, cx); why != "" {
+				r.Failf("put-stores-invalid", why+" ["+where+"]", "an object reached the storage of node %s (%s) although: %s.\nupload: %s, %d payload bytes, %d streamed; result %s at %s", w.nodeName(rec.node), rec.via, why, where, len(u.payload), len(streamed), res, stage)
+			}
+		}
+		sealed := shape != c24Blank && shape != c24BlankOwn
+		streamBroken := sealed && u.via == "stream" && (!bytes.Equal(streamed, u.payload) || !closed)
+		if u.broken || streamBroken {
+			brokenAny = true
+			r.Probe("broken upload: " + u.mut)
+			if fault != c24FNone {
+				r.Probe("stream fault: " + c24FaultName(fault))
+			}
+			if len(st) > 0 {
+				r.Failf("put-broken-input-stored", "objects stored for a broken upload ["+where+"]", "%d deliveries stored something although the upload is broken (%s); result %s at %s", len(st), where, res, stage)
+			}
+			if closed && resErr == nil {
+				r.Failf("put-broken-input-accepted", "success reported for a broken upload ["+where+"]", "the upload is broken (%s) but the node reported success", where)
+			}
+		} else if u.open {
+			r.Probe("statement leaves open: " + u.mut)
+			if resErr == nil && closed {
+				r.Probe("open case accepted")
+			} else {
+				r.Probe("open case refused")
+			}
+		} else if closed {
+			if resErr == nil {
+				r.Probe("valid upload accepted: " + c24ShapeName(shape))
+			} else if failedDeliveries == 0 {
+				r.Probe("valid upload refused although no delivery failed (allowed, watch)")
+				r.Logf("  refused: %s", c24Generic(resErr.Error()))
+			} else {
+				r.Probe("valid upload failed after delivery failures")
+			}
+		}
+		if len(st) > 0 {
+			storedAny = true
+		}
+		if failedDeliveries > 0 {
+			brokenAny = true
+		}
+		if sealed {
+			// what is stored must be the client's object, bit for bit
+			for _, rec := range st {
+				if rec.obj.GetID() != u.hdr.GetID() || !bytes.Equal(rec.obj.CutPayload().Marshal(), u.hdr.CutPayload().Marshal()) || !bytes.Equal(rec.obj.Payload(), streamed) {
+					r.Failf("put-stores-different-object", "the stored object differs from the sealed object that was sent ["+where+"]", "node %s (%s) stored an object that is not the one the client sent", w.nodeName(rec.node), rec.via)
+				}
+			}
+			continue
+		}
+		c24Reassembly(r, w, cx, st, streamed, u.hdr.PayloadSize(), resID, closed && resErr == nil, where)
+	}
+	if storedAny && brokenAny {
+		r.Nontrivial()
+	}
+}
+
+// c24SpanPlaced judges the deliveries made during one SendChunk call: every piece formed
+// (child object, or the EC parts of a child) must have been acknowledged as the container's
+// policy demands (C25's judge).  Returns "" or what is short.
+func c24SpanPlaced(rep []int, ec [][2]int, lists [][]int, recs []*pvRec) string {
+	pol := &c25Policy{rep: rep, ec: ec, lists: lists}
+	var acks []c25Ack
+	var ids []oid.ID
+	seen := map[oid.ID]bool{}
+	sys := map[oid.ID]bool{}
+	for _, rec := range recs {
+		a := c25Ack{node: rec.node, id: rec.obj.GetID(), rule: -1, part: -1}
+		logical := a.id
+		if rs, ps, ok := pvECInfo(&rec.obj); ok {
+			a.rule, _ = strconv.Atoi(rs)
+			a.part, _ = strconv.Atoi(ps)
+			if par := rec.obj.Parent(); par != nil {
+				a.parent = par.GetID()
+				logical = a.parent
+			}
+		}
+		if rec.obj.Type() != object.TypeRegular {
+			sys[logical] = true
+		}
+		if !seen[logical] {
+			seen[logical] = true
+			ids = append(ids, logical)
+		}
+		if rec.acked {
+			acks = append(acks, a)
+		}
+	}
+	attempted := make([]bool, len(ec))
+	for _, id := range ids {
+		kind := c25Trusted
+		if sys[id] {
+			kind = c25Lock
+		}
+		if ok, why := c25Judge(pol, kind, -1, -1, id, acks, attempted); !ok {
+			return why
+		}
+	}
+	return ""
+}
+
+// c24Generic strips run-specific values (hex, numbers) from a message.
+func c24Generic(s string) string {
+	out := strings.Map(func(c rune) rune {
+		if c >= '0' && c <= '9' {
+			return 'N'
+		}
+		return c
+	}, s)
+	if len(out) > 90 {
+		out = out[:90]
+	}
+	return out
+}
+
+// c24Reassembly: the pieces the node made (children in order, link, parent header; EC parts
+// of each of them) give back exactly the streamed bytes - or a prefix if the upload failed.
+func c24Reassembly(r *simkit.R, w *pvWorld, cx *c24Ctx, st []*pvRec, streamed []byte, declared uint64, root oid.ID, success bool, where string) {
+	// diagnosis: exactly the declared number of bytes was kept, the rest of the stream dropped
+	surplus := func(got []byte, what string) string {
+		if declared > 0 && uint64(len(streamed)) > declared && uint64(len(got)) <= declared {
+			return "more bytes streamed than the blank header declared: no chunk is refused, bytes are dropped silently"
+		}
+		return what
+	}
+	logical := map[oid.ID]*object.Object{}
+	type pkey struct{ rule, part int }
+	parts := map[oid.ID]map[pkey]*object.Object{}
+	var order []oid.ID
+	for _, rec := range st {
+		o := &rec.obj
+		if rs, ps, ok := pvECInfo(o); ok {
+			ri, _ := strconv.Atoi(rs)
+			pi, _ := strconv.Atoi(ps)
+			pid := o.Parent().GetID() // c24Valid has checked the parent
+			if parts[pid] == nil {
+				parts[pid] = map[pkey]*object.Object{}
+				order = append(order, pid)
+			}
+			if old := parts[pid][pkey{ri, pi}]; old != nil && old.GetID() != o.GetID() {
+				r.Failf("put-reassembly", "two different objects stored as the same EC part ["+where+"]", "rule %d part %d", ri, pi)
+			}
+			parts[pid][pkey{ri, pi}] = o
+			continue
+		}
+		logical[o.GetID()] = o
+	}
+	// decode EC parents from their data parts
+	incomplete := 0
+	for _, pid := range order {
+		ps := parts[pid]
+		var dec *object.Object
+		for j, e := range cx.ec {
+			have := true
+			var pl []byte
+			var hdr *object.Object
+			for d := 0; d < e[0]; d++ {
+				p := ps[pkey{j, d}]
+				if p == nil {
+					have = false
+					break
+				}
+				pl = append(pl, p.Payload()...)
+				hdr = p.Parent()
+			}
+			if !have {
+				continue
+			}
+			if uint64(len(pl)) < hdr.PayloadSize() {
+				r.Failf("put-reassembly", "data parts of an EC rule are shorter than their parent ["+where+"]", "rule %d: %d < %d", j, len(pl), hdr.PayloadSize())
+			}
+			pl = pl[:hdr.PayloadSize()]
+			cs, _ := hdr.PayloadChecksum()
+			if h := sha256.Sum256(pl); !bytes.Equal(h[:], cs.Value()) {
+				r.Failf("put-reassembly", "data parts of an EC rule do not give back their parent's payload ["+where+"]", "rule %d", j)
+			}
+			var full object.Object
+			hdr.CopyTo(&full)
+			full.SetPayload(pl)
+			if dec != nil && !bytes.Equal(dec.Payload(), pl) {
+				r.Failf("put-reassembly", "two EC rules decode to different payloads ["+where+"]", "rule %d", j)
+			}
+			dec = &full
+		}
+		if dec == nil {
+			incomplete++
+			continue
+		}
+		if why := c24Valid(dec, &c24Ctx{epoch: cx.epoch}); why != "" {
+			r.Failf("put-stores-invalid", "EC parent: "+why+" ["+where+"]", "the object decoded from stored EC parts is not valid: %s", why)
+		}
+		logical[pid] = dec
+	}
+	if success && incomplete > 0 {
+		r.Failf("put-reassembly", "success, but an EC-encoded object lacks data parts ["+where+"]", "%d encoded objects cannot be put together from what was stored", incomplete)
+	}
+	if success {
+		rootObj := logical[root]
+		if rootObj != nil && rootObj.Type() == object.TypeRegular && !rootObj.HasParent() {
+			if !bytes.Equal(rootObj.Payload(), streamed) {
+				r.Failf("put-reassembly", surplus(rootObj.Payload(), "the stored object's payload is not what the client streamed")+" ["+where+"]", "%d bytes stored, %d streamed, %d declared in the blank header", len(rootObj.Payload()), len(streamed), declared)
+			}
+			r.Probe("node-formed object stored whole")
+			return
+		}
+		// split: find the link object
+		var link *object.Object
+		var ids []oid.ID
+		for id := range logical {
+			ids = append(ids, id)
+		}
+		sort.Slice(ids, func(i, j int) bool { return bytes.Compare(ids[i][:], ids[j][:]) < 0 })
+		for _, id := range ids {
+			o := logical[id]
+			if o.Type() == object.TypeLink && o.Parent() != nil && o.Parent().GetID() == root {
+				link = o
+			}
+		}
+		if link == nil {
+			r.Failf("put-reassembly", "success, but neither the object nor its link object was stored ["+where+"]", "%d objects stored", len(logical))
+		}
+		var l object.Link
+		if err := link.ReadLink(&l); err != nil {
+			r.Failf("put-reassembly", "link object payload does not decode ["+where+"]", "%v", err)
+		}
+		var got []byte
+		var prev, first oid.ID
+		for i, mo := range l.Objects() {
+			ch := logical[mo.ObjectID()]
+			if ch == nil {
+				r.Failf("put-reassembly", "success, but a child listed by the link object was stored nowhere ["+where+"]", "child %d of %d", i, len(l.Objects()))
+			}
+			if uint64(mo.ObjectSize()) != ch.PayloadSize() {
+				r.Failf("put-reassembly", "link object lists a wrong child size ["+where+"]", "child %d", i)
+			}
+			if i == 0 {
+				first = ch.GetID()
+				if !ch.GetPreviousID().IsZero() {
+					r.Failf("put-reassembly", "first child has a previous object ["+where+"]", "")
+				}
+			} else if ch.GetPreviousID() != prev || ch.GetFirstID() != first {
+				r.Failf("put-reassembly", "children are not chained in the order the link object lists ["+where+"]", "child %d", i)
+			}
+			prev = ch.GetID()
+			got = append(got, ch.Payload()...)
+		}
+		if !bytes.Equal(got, streamed) {
+			r.Failf("put-reassembly", surplus(got, "children's payloads concatenated differ from the streamed bytes")+" ["+where+"]", "%d bytes in children, %d streamed, %d declared in the blank header", len(got), len(streamed), declared)
+		}
+		par := link.Parent()
+		cs, _ := par.PayloadChecksum()
+		if h := sha256.Sum256(streamed); par.PayloadSize() != uint64(len(streamed)) || !bytes.Equal(h[:], cs.Value()) {
+			r.Failf("put-reassembly", "parent header's size/checksum are not those of the streamed bytes ["+where+"]", "")
+		}
+		if why := c24HeaderBad(par); why != "" || par.Signature() == nil {
+			r.Failf("put-stores-invalid", "parent header of a node-made split: "+why+" ["+where+"]", "")
+		}
+		r.Probe("node-formed split object reassembled")
+		return
+	}
+	// failed or cut upload: whatever regular pieces exist, chained from the first one, must
+	// be a prefix of the streamed bytes
+	var firstObj *object.Object
+	next := map[oid.ID]*object.Object{}
+	n := 0
+	for _, o := range logical {
+		if o.Type() != object.TypeRegular {
+			continue
+		}
+		n++
+		if o.GetPreviousID().IsZero() {
+			if firstObj != nil && firstObj.GetID() != o.GetID() {
+				r.Failf("put-reassembly", "two first pieces stored for one upload ["+where+"]", "")
+			}
+			firstObj = o
+		} else {
+			next[o.GetPreviousID()] = o
+		}
+	}
+	if n == 0 {
+		return
+	}
+	r.Probe("failed upload left valid pieces behind")
+	if firstObj == nil {
+		return
+	}
+	var got []byte
+	for o := firstObj; o != nil; o = next[o.GetID()] {
+		got = append(got, o.Payload()...)
+	}
+	if !bytes.HasPrefix(streamed, got) {
+		r.Failf("put-reassembly", surplus(got, "pieces left by a failed upload are not a prefix of the streamed bytes")+" ["+where+"]", "%d bytes in pieces, %d streamed, %d declared in the blank header", len(got), len(streamed), declared)
+	}
 }
